@@ -104,6 +104,8 @@ func exprText(e Expr) string {
 		return exprText(e.Kids[0]) + " + " + exprText(e.Kids[1])
 	case "sub":
 		return exprText(e.Kids[0]) + " - " + exprText(e.Kids[1])
+	case "monlit": // a monetary literal whose asset position is an expression
+		return fmt.Sprintf("[%s %d]", exprText(e.Kids[0]), e.V.N)
 	}
 	return "?"
 }
